@@ -11,7 +11,7 @@ META = {
         "humphrey-server/src/server/rand.rs: <Lcg as Iterator>::next, <[T] as Choose>::choose, Lcg::new, Lcg::with_parameters",
     ],
     "reference_model": "inline: targets[index], (index+1) mod N; (a*seed+c) mod m",
-    "stubs": ["std::time::SystemTime::now -> UNIX_EPOCH + arbitrary seconds < 2^33 (c09_lcg_new only)"],
+    "stubs": ["std::time::SystemTime::now -> UNIX_EPOCH + arbitrary seconds < 2^33 (c09_lcg_new only)", "<Lcg as Iterator>::next -> arbitrary value below the modulus (c09_rnd_any_*: selection decided for every generator output; the generator itself is c09_lcg_next)"],
     "assumes": ["pre-state: index < number of targets (inductive invariant, established by index = 0 and preserved by the step)",
                 "seed < 2^33 (clock seconds until year 2242 on first use; < 2^31-1 after any step: shown)"],
     "outside_bounds": [
@@ -24,11 +24,14 @@ META = {
 
 def harnesses():
     hs = []
+    NEXT = "kani::stub(<humphrey_server::rand::Lcg as std::iter::Iterator>::next, crate::c09::stub_lcg_next)"
     for n in (1, 2, 3, 4):
         hs.append(H("c09_rr_step_%d" % n, "rr_step::<_, %d>" % n, 8, "quick", "round-robin inductive step, %d targets, arbitrary index < %d" % (n, n)))
-        hs.append(H("c09_rnd_step_%d" % n, "rnd_step::<_, %d>" % n, 8, "quick" if n != 3 else "thorough", timeout=1500 if n != 3 else 3600, desc="random-mode step, %d targets, arbitrary seed < 2^33: member of the set, no overflow, seed' < modulus" % n))
+        hs.append(H("c09_rnd_any_%d" % n, "rnd_any::<_, %d>" % n, 8, "quick", "random mode, %d targets, EVERY generator output < modulus (next() stubbed): result is a configured target, no panic" % n,
+                    attrs=[NEXT], timeout=1200))
+    hs.append(H("c09_lcg_next", "lcg_next", 4, "quick", "Lcg::next from any seed < 2^33: no overflow, output < modulus, twice", timeout=1800))
     for n in (3, 4):
-        hs.append(H("c09_rnd_member_%d" % n, "rnd_member::<_, %d>" % n, 8, "quick", "random-mode step, %d targets, arbitrary seed < 2^33: result is a configured target, no overflow/index panic" % n, timeout=1500))
+        hs.append(H("c09_rnd_member_%d" % n, "rnd_member::<_, %d>" % n, 8, "thorough", "random-mode step with the real generator, %d targets, arbitrary seed < 2^33: configured target, no overflow/index panic" % n, timeout=1500))
     hs.append(H("c09_lcg_new", "lcg_new", 8, "quick", "Lcg::new() == documented glibc parameters, seed = clock seconds",
                 attrs=["kani::stub(std::time::SystemTime::now, crate::c09::stub_now)"]))
     for h in hs:
